@@ -331,6 +331,7 @@ func runShutdownCase(r *mon.Run, c ShutdownCase) {
 		}
 	}
 	tipAtClose := node.Real.Tip().Height
+	r.Count("shutdown.coreutils_goroutines_before_close", len(limitlab.Inventory(nil)))
 
 	// ---- Close ----
 	close(closeCalled)
@@ -350,10 +351,18 @@ func runShutdownCase(r *mon.Run, c ShutdownCase) {
 	if !p.wait(livenessBound) || (p2 != nil && !p2.wait(livenessBound)) {
 		inv := limitlab.Inventory(nil)
 		sig := "syncer-close-timeout:in-flight-work"
+		dups := node.PS.DuplicateConnAddrs()
 		if lateInboundStuck(inv) && len(node.S.Peers()) > 0 {
 			sig = "close-deadlock-late-inbound-peer"
+		} else if len(dups) > 0 {
+			// structural matcher of the duplicate-address defect: two
+			// connections were stored under one dial-back address (e.g. an
+			// honest peer dialing us while we dial it: both handshakes pass
+			// alreadyConnected before either is added), one of them is an
+			// orphan now
+			sig = "close-deadlock-duplicate-netaddress"
 		}
-		r.Violation(sig, "Syncer.Close did not return within 30 s of the last release the monitor controls", vcase, map[string]any{"goroutines": limitlab.Keys(inv), "peers": len(node.S.Peers())})
+		r.Violation(sig, "Syncer.Close did not return within 30 s of the last release the monitor controls", vcase, map[string]any{"goroutines": limitlab.Keys(inv), "peers": len(node.S.Peers()), "addressesConnectedTwice": dups})
 		// let the stuck syncer go: every remote end hangs up
 		for _, a := range atts {
 			a.Close()
@@ -364,6 +373,9 @@ func runShutdownCase(r *mon.Run, c ShutdownCase) {
 			a.Close()
 		}
 		hsMu.Unlock()
+		for _, fn := range closeHonest {
+			fn()
+		}
 		if !p.wait(livenessBound) {
 			r.Inconclusive("shutdown: Close still stuck after every peer hung up")
 		}
@@ -432,6 +444,7 @@ func runShutdownCase(r *mon.Run, c ShutdownCase) {
 	cleanup = nil
 	inv, ok := limitlab.Settle(settleBound/3, nil, func(g []limitlab.Goroutine) bool { return len(g) == 0 })
 	r.Count("shutdown.goroutine_inventories", 1)
+	r.Count("shutdown.coreutils_goroutines_after_close", len(inv))
 	if !ok {
 		r.Violation("goroutine-left-behind:syncer", "coreutils goroutines are still alive after every syncer of the case was closed and every peer hung up", vcase, limitlab.Keys(inv))
 		return
